@@ -45,6 +45,49 @@ CONFIGS = [
 ]
 
 
+def _dt(ns, name, major, minor, attrs, union=False, sealed=True, kind=None):
+    return {"ns": ns, "name": name, "major": major, "minor": minor, "port_id": None, "kind": kind or ("union" if union else "struct"), "deprecated": False, "doc": [],
+            "body": {"union": union, "sealed": sealed, "extent_extra": 8, "attrs": attrs}}
+
+
+def _df(name, t):
+    return {"k": "field", "type": t, "name": name, "doc": None}
+
+
+def _dref(full, major=1, minor=0):
+    return {"t": "ref", "full": full, "major": major, "minor": minor}
+
+
+_U8 = {"t": "uint", "bits": 8, "cast": "saturated"}
+DIRECTED_UNIVERSE = {
+    "roots": [
+        {
+            "name": "dirx",
+            "types": [
+                # tokens that only the TYPED reserved patterns of the C target catch (function / typedef / macro / enum), as
+                # attribute here and as namespace (path) component of sibling types below
+                _dt(["dirx", "parts"], "Wheel", 1, 0, [_df("r", {"t": "float", "bits": 32, "cast": "saturated"}), _df("memory", _U8), _df("int_t", _U8), _df("strength", _U8),
+                                                        _df("mtx_a", _U8), _df("memory_order_x", _U8)]),
+                _dt(["dirx", "memory"], "M", 1, 0, [_df("x", _U8)]),
+                _dt(["dirx", "int_t"], "T", 1, 0, [_df("x", _U8)]),
+                _dt(["dirx", "strength", "mtx_a"], "S", 1, 0, [_df("x", _U8)]),
+                _dt(["dirx", "memory_order_x"], "O", 1, 0, [_df("memory", _U8)]),
+                _dt(["dirx", "parts"], "Tyre", 1, 0, [_df("psi", {"t": "uint", "bits": 9, "cast": "saturated"}), _df("worn", {"t": "bool"})]),
+                # two versions of one type with different dependencies and different standard-header needs
+                _dt(["dirx"], "Axle", 1, 0, [_df("wheels", {"t": "farr", "elem": _dref("dirx.parts.Wheel"), "n": 2}), _df("locked", {"t": "farr", "elem": {"t": "bool"}, "n": 12})]),
+                _dt(["dirx"], "Axle", 2, 0, [_df("tyres", {"t": "varr", "elem": _dref("dirx.parts.Tyre"), "cap": 2, "incl": True})]),
+                _dt(["dirx"], "Axle", 2, 1, [_df("tyres", {"t": "varr", "elem": _dref("dirx.parts.Tyre"), "cap": 2, "incl": True})]),
+                _dt(["dirx", "deep", "er"], "Either", 1, 0, [_df("old", _dref("dirx.Axle", 1, 0)), _df("new", _dref("dirx.Axle", 2, 0)), _df("n", _U8)], union=True),
+                _dt(["dirx"], "Car", 1, 0, [_df("front", _dref("dirx.Axle", 2, 1)), _df("rear", _dref("dirx.Axle", 1, 0)), _df("e", _dref("dirx.deep.er.Either"))], sealed=False),
+                {"ns": ["dirx"], "name": "Inspect", "major": 1, "minor": 0, "port_id": None, "kind": "service", "deprecated": False, "doc": [],
+                 "body": {"request": {"union": False, "sealed": True, "extent_extra": 0, "attrs": [_df("car", _dref("dirx.Car"))]},
+                          "response": {"union": True, "sealed": True, "extent_extra": 0, "attrs": [_df("ok", {"t": "bool"}), _df("bad", _dref("dirx.parts.Tyre"))]}}},
+            ],
+        }
+    ]
+}
+
+
 def type_key(td: dict) -> str:
     return ".".join(td["ns"] + [td["name"]]) + f".{td['major']}.{td['minor']}"
 
@@ -142,6 +185,10 @@ def coincide(u: dict, pick: int) -> dict:
     return v
 
 
+class ApiRunFailed(Exception):
+    pass
+
+
 class Env:
     def __init__(self, u: dict):
         self.u = u
@@ -236,6 +283,28 @@ class Env:
         files = tool.tree_files(out) if out.exists() else {}
         return rc, files, se
 
+    def api_calls(self, keys: typing.List[str], lang: str, omits: typing.List[bool]) -> typing.List[typing.Dict[str, bytes]]:
+        """One interpreter, one pair of generator objects, one generate_all() per entry of omits. Files per call."""
+        import subprocess
+        import sys
+
+        rootdir = self.materialise(keys)
+        out = self.tmp / "out"
+        job = {"t": FAKE_T, "lang": lang, "root": str(rootdir), "out": str(out), "calls": [{"omit": bool(o)} for o in omits]}
+        env = dict(os.environ, PYTHONHASHSEED="0", PYTHONDONTWRITEBYTECODE="1")
+        self.runs += len(omits)
+        p = subprocess.run([sys.executable, "-m", "vf.props.c10", "--api-worker"], input=json.dumps(job), capture_output=True, text=True, env=env, timeout=900)
+        shutil.rmtree(out, ignore_errors=True)
+        if p.returncode != 0:
+            raise ApiRunFailed(p.stderr[-1200:])
+        return [{k: bytes.fromhex(v) for k, v in call.items()} for call in json.loads(p.stdout.strip().splitlines()[-1])]
+
+    def api_model(self, keys: typing.List[str], lang: str, omit: bool) -> typing.Dict[str, bytes]:
+        mk = ("api", self.vi, lang, omit)
+        if mk not in self.model:
+            self.model[mk] = self.api_calls(keys, lang, [omit])[0]
+        return self.model[mk]
+
     def model_bytes(self, key: str, cfg: dict) -> typing.Optional[bytes]:
         mk = (self.vi, key, cfg["name"])
         if mk not in self.model:
@@ -246,6 +315,45 @@ class Env:
             if self.model[mk] is None:
                 raise core.HarnessError(f"model run did not produce {self.rel_file(key, cfg)}: {sorted(files)}")
         return self.model[mk]
+
+
+API_LANGS = {"c": ("c", ".h", {}), "cpp": ("cpp", ".hpp", {"std": "c++17"}), "py": ("py", ".py", {})}
+
+
+def _api_worker() -> int:
+    """
+    python -m vf.props.c10 --api-worker  (job on stdin): the documented library route -- read_namespace, build_namespace_tree,
+    DSDLCodeGenerator / SupportGenerator -- with ONE pair of generator objects used for every call of the job (each call may pass other
+    per-call arguments), under the fake clock.  Prints {call index: {relative path: hex}}.
+    """
+    import json as _json
+    import sys as _sys
+
+    from .. import nnvg_wrap
+
+    job = _json.loads(_sys.stdin.read())
+    nnvg_wrap._fake_time(float(job["t"]))
+    import nunavut
+    import pydsdl
+    from nunavut.lang import Language, LanguageContextBuilder
+
+    lang, _, options = API_LANGS[job["lang"]]
+    lctx = (LanguageContextBuilder(include_experimental_languages=True).set_target_language(lang)
+            .set_target_language_configuration_override(Language.WKCV_LANGUAGE_OPTIONS, options).create())
+    types = pydsdl.read_namespace(job["root"], [], allow_unregulated_fixed_port_id=True)
+    ns = nunavut.build_namespace_tree(types, job["root"], job["out"], lctx)
+    from nunavut.jinja import DSDLCodeGenerator, SupportGenerator  # the documented library use (nunavut/__init__.py)
+
+    gen, sup = DSDLCodeGenerator(ns), SupportGenerator(ns)
+    res = []
+    out = pathlib.Path(job["out"])
+    for call in job["calls"]:
+        shutil.rmtree(out, ignore_errors=True)
+        sup.generate_all(False, True, call["omit"], False)
+        gen.generate_all(False, True, call["omit"], False)
+        res.append({k: v.hex() for k, v in tool.tree_files(out).items()})
+    _sys.stdout.write("\n" + _json.dumps(res) + "\n")
+    return 0
 
 
 def first_diff(a: bytes, b: bytes) -> str:
@@ -371,6 +479,48 @@ def make_machine(ctx: core.Ctx, configs: typing.List[dict]):
             # refers to another type)
             self.step({"seeds": None, "cfg": cfg, "inproc": True, "variant": variant})
 
+        @rule(lang=st.sampled_from(["c", "c", "cpp", "py"]), omits=st.lists(st.booleans(), min_size=2, max_size=3), variant=st.integers(0, 1))
+        def reuse_generator_objects(self, lang, omits, variant):
+            self.api_step({"api": True, "lang": lang, "omits": omits, "variant": variant})
+
+        def api_step(self, step: dict) -> None:
+            """
+            Library route: ONE pair of generator objects, several generate_all() calls with per-call arguments (here: with and
+            without serialization support).  Every call must produce, for every type, what the same single call produces on
+            fresh generator objects in a fresh process.
+            """
+            env = self.env
+            assert env is not None
+            env.select(step.get("variant", 0))
+            keys = list(env.order)
+            lang, omits = step["lang"], step["omits"]
+            self.trace.append(step)
+            cfg = {"name": lang, "argv": ["--target-language", API_LANGS[lang][0]], "ext": API_LANGS[lang][1]}
+            try:
+                calls = env.api_calls(keys, lang, omits)
+                models = {o: env.api_model(keys, lang, o) for o in sorted(set(omits))}
+            except ApiRunFailed as e:
+                ctx.fail(f"C10|{lang}|run-failed|api", f"library route failed for {keys}: {e}", {"universe": env.variants[0], "trace": list(self.trace)})
+                raise AssertionError("api run failed")
+            ctx.event("api.reused-generator-calls", len(omits))
+            if len(set(omits)) > 1:
+                ctx.event("api.reused-generator-with-other-arguments")
+            self.inproc_runs += len(omits)
+            self.shared_types += 1
+            self.not_first = True
+            for i, (o, files) in enumerate(zip(omits, calls)):
+                for k in keys:
+                    rel = env.rel_file(k, cfg)
+                    exp, got = models[o].get(rel), files.get(rel)
+                    if exp is None:
+                        raise core.HarnessError(f"api model lacks {rel}: {sorted(models[o])}")
+                    if got != exp:
+                        kind = "type-file-missing" if got is None else classify(exp, got)
+                        sig = f"C10|{lang}|{kind}|reused-generator-objects|call-{'first' if i == 0 else 'later'}"
+                        ctx.fail(sig, f"{rel}: call {i + 1} of {omits} (omit_serialization_support per call) on one generator differs from the same call on fresh "
+                                 f"generator objects in a fresh process: {first_diff(exp, got) if got is not None else 'missing'}", {"universe": env.variants[0], "trace": list(self.trace)})
+                        raise AssertionError("type file differs from model")
+
         @rule(cfg=st.sampled_from([c["name"] for c in configs]))
         def run_whole_inproc(self, cfg):
             self.step({"seeds": None, "cfg": cfg, "inproc": True})
@@ -385,8 +535,8 @@ def make_machine(ctx: core.Ctx, configs: typing.List[dict]):
                     ("c10", self.env.u, self.trace),
                     nontrivial=self.inproc_runs >= 2 and self.shared_types >= 1 and self.not_first,
                     sample={"types": self.env.order, "steps": self.trace[:6]},
-                    classes=["machines", f"steps={min(len(self.trace), 8)}"] + sorted({"cfg." + s["cfg"] for s in self.trace}) + (["fresh_hashseed_run"] if any(not s["inproc"] for s in self.trace) else [])
-                    + (["revision_run"] if len({s.get("variant", 0) for s in self.trace if s["inproc"]}) > 1 else []) + (["has_revision_variant"] if len(self.env.variants) > 1 else []),
+                    classes=["machines", f"steps={min(len(self.trace), 8)}"] + sorted({"cfg." + (s["cfg"] if "cfg" in s else "api-" + s["lang"]) for s in self.trace}) + (["fresh_hashseed_run"] if any(not s.get("inproc", True) for s in self.trace) else [])
+                    + (["revision_run"] if len({s.get("variant", 0) for s in self.trace if s.get("inproc", True)}) > 1 else []) + (["has_revision_variant"] if len(self.env.variants) > 1 else []),
                 )
                 ctx.event("tool_runs", self.env.runs)
                 ctx.event("model_files", len(self.env.model))
@@ -409,6 +559,26 @@ def run(ctx: core.Ctx):
     ]
     n = 8 if ctx.quick else 80
     machine = make_machine(ctx, CONFIGS)
+    # directed history first: a namespace with two versions of one type that have DIFFERENT dependencies, nested namespaces, a
+    # union and a service; whole namespace / each version alone / whole again in one interpreter, then the library route
+    m = machine()
+    m.env = Env(DIRECTED_UNIVERSE)
+    try:
+        nkeys = len(m.env.order)
+        axles = [i for i, k in enumerate(m.env.order) if ".Axle." in k]
+        for cfg in ("c", "cpp", "py", "user+limit1"):
+            m.step({"seeds": None, "cfg": cfg, "inproc": True})
+            for i in axles:
+                m.step({"seeds": [i], "cfg": cfg, "inproc": True})
+            m.step({"seeds": None, "cfg": cfg, "inproc": True})
+        for lang in ("c", "cpp", "py"):
+            m.api_step({"api": True, "lang": lang, "omits": [False, True, False], "variant": 0})
+            m.api_step({"api": True, "lang": lang, "omits": [True, False], "variant": 0})
+        ctx.event("directed_history_completed")
+    except AssertionError:
+        pass
+    finally:
+        m.teardown()
     try:
         run_state_machine_as_test(hypothesis.seed(ctx.seed)(machine), settings=core.hsettings(n, shrink=not os.environ.get("VF_NO_SHRINK"), stateful_step_count=6 if ctx.quick else 12))
     except AssertionError:
@@ -422,6 +592,15 @@ def replay(ctx: core.Ctx, case):
     sub = core.Ctx(ctx.prop, ctx.tier, ctx.seed)
     try:
         for step in case["trace"]:
+            if step.get("api"):
+                M = make_machine(sub, CONFIGS)
+                m = M()
+                m.env = env
+                try:
+                    m.api_step(step)
+                except AssertionError:
+                    break
+                continue
             cfg = [c for c in CONFIGS if c["name"] == step["cfg"]][0]
             env.select(step.get("variant", 0))
             keys = env.closure([env.order[i % len(env.order)] for i in step["seeds"]]) if step["seeds"] is not None else list(env.order)
@@ -435,3 +614,10 @@ def replay(ctx: core.Ctx, case):
     finally:
         env.close()
     return out
+
+
+if __name__ == "__main__":
+    import sys
+
+    if "--api-worker" in sys.argv:
+        sys.exit(_api_worker())
